@@ -1,4 +1,5 @@
 import EupsModel.Lemmas.CacheInv
+import EupsModel.Lemmas.CacheSync
 /-! C07 — answers served from the product cache equal the answers in the database files.
 Property theorems only; model `Model/Cache.lean` over `Model/Db.lean`, lemmas in `Lemmas/Agree.lean`
 (commutation) and `Lemmas/CacheInv.lean` (the invariant and its preservation).
@@ -236,5 +237,84 @@ example :
 example :
     let w := runHistory (World.init 1 dirs) [.run 1 (declareCmd L [49]) none, .run 1 (declareCmd L [50]) (some 1)]
     (w.caches.all fun cf => !(accepts w cf)) = true ∧ (viaCache w 1 L).hasDecl 0 p [50] L = true := by decide
+
+/-! ## two `ProductStack` objects alive in one process (round 3; `Model/CacheSync.lean`) -/
+
+/-- **The staleness test between live instances keeps the cache complete.**  From any world as single-process
+histories leave it (`Start`: a cache file that is not older than the database is complete — `C07_cache_inv`), whichever
+way each of the two instances is filled (the user's file, the stack-wide cache inside ups_db/, the database), and for
+EVERY interleaving of their write-throughs (`Database` mutation, `ensureInSync`, write-through, `save`), their
+`ensureInSync` calls and the commands of other well-behaved processes of the user — as long as nobody deletes the cache
+file under them —: a cache file that is not older than the database holds the whole database.  So whatever a later
+process accepts is complete.  With the rule of the tree before c9cb3dd this is false (next theorem). -/
+theorem C07_live_instances_safe (s : CacheSync.St) (h : CacheSync.Start s) (sysOk : Bool) (evs : List CacheSync.Ev)
+    (hnd : ∀ e ∈ evs, e ≠ .delete) :
+    CacheSync.Safe (CacheSync.run true (CacheSync.load true sysOk (CacheSync.load true sysOk s false) true) evs) :=
+  ((CacheSync.load2_inv h sysOk).run evs hnd).safe
+
+/-- non-vacuity: the scenarios the check enumerates start from such a world -/
+example : CacheSync.Start ⟨4, List.range 2, 2, none, ⟨none, []⟩, ⟨none, []⟩⟩ :=
+  ⟨(by intro f hf; cases hf), (by decide), (by intro f hf; cases hf)⟩
+example : CacheSync.Start ⟨4, List.range 2, 2, some ⟨1, List.range 1⟩, ⟨none, []⟩, ⟨none, []⟩⟩ :=
+  ⟨(by intro f hf hfr; cases hf; exact absurd hfr (by decide)), (by decide), (by intro f hf; cases hf; decide)⟩
+
+/-- **D60 (fixed c9cb3dd), the rule before the repair.**  Both instances read the stack-wide cache (no file of the
+user yet); instance 1 writes, instance 0 writes: with the old rule instance 0 does not know the file instance 1 created
+(`if file not in self.modtimes: return True`), saves its stale stack over it, and the file — newer than the database —
+lacks the change of instance 1.  With the repaired rule the same schedule ends with the complete file. -/
+theorem C07_live_instances_pinned_witness :
+    let old := CacheSync.run false (CacheSync.init false 2 0 true) [.write true, .write false]
+    let new := CacheSync.run true (CacheSync.init true 2 0 true) [.write true, .write false]
+    (CacheSync.fresh old = true ∧ old.db = [0, 1, 2, 3] ∧ old.file.map (·.content) = some [0, 1, 3]) ∧
+    (CacheSync.fresh new = true ∧ new.file.map (·.content) = some [0, 1, 2, 3]) := by decide
+
+/-- **D61 (open): the hypothesis "nobody deletes the cache file under a live instance" is needed**, also with the
+repaired rule: instance 1 writes, the file is deleted (`eups admin clearCache` elsewhere), instance 0 writes:
+`FileNotFoundError` counts as "in sync", the stale stack is written through and saved as a fresh cache file that lacks
+the change of instance 1. -/
+theorem C07_live_instances_delete_witness :
+    let s := CacheSync.run true (CacheSync.init true 2 2 false) [.write true, .delete, .write false]
+    CacheSync.fresh s = true ∧ s.db = [0, 1, 2, 3] ∧ s.file.map (·.content) = some [0, 1, 3] := by decide
+
+/-- **Two unserialised writers: another writer's whole command inside `ProductStack.reload`.**  Instance 1 reads the
+user's up-to-date cache file while another process of the user changes the database and saves the file — before or
+after instance 1's read (`readLate`), in any case after instance 1 has noted the file's time, which is the order of the
+code.  Whatever follows (every interleaving of write-throughs, `ensureInSync` calls and other processes' commands, no
+deletion): a cache file that is not older than the database is complete. -/
+theorem C07_writer_inside_reload_safe (s : CacheSync.St) (h : CacheSync.Start s) (sysOk readLate : Bool)
+    (f : CacheSync.File) (hf : s.file = some f) (hfr : s.dbTime ≤ f.mtime) (evs : List CacheSync.Ev)
+    (hnd : ∀ e ∈ evs, e ≠ .delete) :
+    CacheSync.Safe (CacheSync.run true (CacheSync.loadGate true readLate (CacheSync.load true sysOk s false)) evs) :=
+  ((CacheSync.loadGate_inv h sysOk readLate f hf hfr).run evs hnd).safe
+
+/-- the order matters: a `reload` that notes the time AFTER unpickling holds the old content under the other writer's
+time; its next write-through is judged in sync and saved over the other writer's change (what `corpus/C07/
+race_writer_inside_reload.json` exhibits on such a tree) -/
+theorem C07_time_noted_after_read_witness :
+    let s0 : CacheSync.St := ⟨4, List.range 2, 2, some ⟨3, List.range 2⟩, ⟨none, []⟩, ⟨none, []⟩⟩
+    let bad := CacheSync.run true (CacheSync.loadGate false false (CacheSync.load true false s0 false)) [.write true]
+    let good := CacheSync.run true (CacheSync.loadGate true false (CacheSync.load true false s0 false)) [.write true]
+    (CacheSync.fresh bad = true ∧ bad.db = [0, 1, 2, 3] ∧ bad.file.map (·.content) = some [0, 1, 3]) ∧
+    (CacheSync.fresh good = true ∧ good.file.map (·.content) = some [0, 1, 2, 3]) := by decide
+
+/-- **Another writer inside a constructor that rebuilds.**  Instance 0 finds no usable cache (the user's file is missing
+or older than the database, no stack-wide cache), scans the database, another process of the user declares and saves its
+cache file, then instance 0 gets to its `save()` — which leaves the file alone, because its time was noted before the
+scan (repair 03a1e94).  Instance 1 is constructed next.  Whatever follows (no deletion): a cache file that is not older
+than the database is complete. -/
+theorem C07_writer_inside_rebuild_safe (s : CacheSync.St) (h : CacheSync.Start s)
+    (hstale : ∀ f, s.file = some f → f.mtime < s.dbTime) (evs : List CacheSync.Ev) (hnd : ∀ e ∈ evs, e ≠ .delete) :
+    CacheSync.Safe (CacheSync.run true (CacheSync.load true false (CacheSync.rebuildGate true s) true) evs) :=
+  ((CacheSync.rebuildGate_inv h hstale).run evs hnd).safe
+
+/-- **D62 (fixed 03a1e94), the constructor before the repair**: the files `save()` replaces are unknown to a stack that
+was just created, so the scan of before the other writer's change goes over the other writer's file — newer than the
+database, incomplete — and instance 1, constructed next, accepts it.  With the repair the same schedule keeps the
+complete file. -/
+theorem C07_writer_inside_rebuild_witness :
+    let old := CacheSync.initRebuildGate false 2 0
+    let new := CacheSync.initRebuildGate true 2 0
+    (CacheSync.fresh old = true ∧ old.db = [0, 1, 2] ∧ old.file.map (·.content) = some [0, 1] ∧ old.i1.mem = [0, 1]) ∧
+    (CacheSync.fresh new = true ∧ new.file.map (·.content) = some [0, 1, 2] ∧ new.i1.mem = [0, 1, 2]) := by decide
 
 end EupsModel.C07
